@@ -1,3 +1,25 @@
 package sb
-import ("testing";"verif/sim/rules")
-func TestStarts(t *testing.T){ for _,s:=range Starts { p,h,f,err:=rules.ParseFEN(s.FEN); if err!=nil {t.Error(err);continue}; if p.FEN(h,f)!=s.FEN {t.Errorf("noncanon %q",s.FEN)}; if p.InCheck(!p.WhiteT){t.Errorf("check %q",s.FEN)}; if s.Tag!="mate" && len(p.LegalMoves())==0 {t.Errorf("nomoves %q",s.FEN)} } }
+
+import (
+	"testing"
+	"verif/sim/rules"
+)
+
+func TestStarts(t *testing.T) {
+	for _, s := range Starts {
+		p, h, f, err := rules.ParseFEN(s.FEN)
+		if err != nil {
+			t.Error(err)
+			continue
+		}
+		if p.FEN(h, f) != s.FEN {
+			t.Errorf("noncanon %q", s.FEN)
+		}
+		if p.InCheck(!p.WhiteT) {
+			t.Errorf("check %q", s.FEN)
+		}
+		if s.Tag != "mate" && len(p.LegalMoves()) == 0 {
+			t.Errorf("nomoves %q", s.FEN)
+		}
+	}
+}
